@@ -89,3 +89,85 @@ Print Assumptions C16_code_response_redirect_url_tie.
 Theorem C16_code_status_is_redirect_tie : ltac:(let t := type of @Equiv.status_is_redirect_tie in exact t).
 Proof. exact (@Equiv.status_is_redirect_tie). Qed.
 Print Assumptions C16_code_status_is_redirect_tie.
+
+(* ---- tie to the code (src/nauyaca/__main__.py, the `get` command: a wiring layer over GeminiClient): theorems of
+   coq/Equiv/EquivCliClient.v (statements there), re-checked against the definitions regenerated from /repo's working tree by
+   translate/py2coq_cliclient.py; see DESIGN.md 11.8 ---- *)
+From NV Require Equiv.EquivCliClient.
+(* every argument of GeminiClient(..) / client.get(..) is the option's value *)
+Theorem C16_code_cli_get_wiring_tie : ltac:(let t := type of @EquivCliClient.cli_get_wiring_tie in exact t).
+Proof. exact (@EquivCliClient.cli_get_wiring_tie). Qed.
+Print Assumptions C16_code_cli_get_wiring_tie.
+(* follow_redirects = not --no-redirects, for ALL values of --max-redirects *)
+Theorem C16_code_cli_get_follow : ltac:(let t := type of @EquivCliClient.cli_get_follow in exact t).
+Proof. exact (@EquivCliClient.cli_get_follow). Qed.
+Print Assumptions C16_code_cli_get_follow.
+(* the client's bound is the option's value *)
+Theorem C16_code_cli_get_max : ltac:(let t := type of @EquivCliClient.cli_get_max in exact t).
+Proof. exact (@EquivCliClient.cli_get_max). Qed.
+Print Assumptions C16_code_cli_get_max.
+Theorem C16_code_cli_get_exit_tie : ltac:(let t := type of @EquivCliClient.cli_get_exit_tie in exact t).
+Proof. exact (@EquivCliClient.cli_get_exit_tie). Qed.
+Print Assumptions C16_code_cli_get_exit_tie.
+Theorem C16_code_cli_get_command_tie : ltac:(let t := type of @EquivCliClient.cli_get_command_tie in exact t).
+Proof. exact (@EquivCliClient.cli_get_command_tie). Qed.
+Print Assumptions C16_code_cli_get_command_tie.
+Theorem C16_code_cli_get_defaults : ltac:(let t := type of @EquivCliClient.cli_get_defaults in exact t).
+Proof. exact (@EquivCliClient.cli_get_defaults). Qed.
+Print Assumptions C16_code_cli_get_defaults.
+Theorem C16_code_cli_get_options : ltac:(let t := type of @EquivCliClient.cli_get_options in exact t).
+Proof. exact (@EquivCliClient.cli_get_options). Qed.
+Print Assumptions C16_code_cli_get_options.
+
+(* ---- C16 of the command line (coq/Proofs/C16_cli.v): the theorems above instantiated through the regenerated wiring, for every
+   option values and every server behaviour ---- *)
+From NV Require Proofs.C16_cli.
+(* `nauyaca get` = GeminiClient.get (regenerated constructor, get, redirect walk) with follow = not --no-redirects, bound = -r *)
+Theorem C16_code_cli_get_is_session_get : ltac:(let t := type of @C16_cli.cli_get_is_session_get in exact t).
+Proof. exact (@C16_cli.cli_get_is_session_get). Qed.
+Print Assumptions C16_code_cli_get_is_session_get.
+(* the extracted model the live runs are judged against is that run *)
+Theorem C16_code_cli_model_is_code : ltac:(let t := type of @C16_cli.cli_model_is_code in exact t).
+Proof. exact (@C16_cli.cli_model_is_code). Qed.
+Print Assumptions C16_code_cli_model_is_code.
+(* at most max_redirects + 1 connections *)
+Theorem C16_code_cli_bound : ltac:(let t := type of @C16_cli.cli_bound in exact t).
+Proof. exact (@C16_cli.cli_bound). Qed.
+Print Assumptions C16_code_cli_bound.
+(* --no-redirects: exactly one connection, the 3x returned unchanged *)
+Theorem C16_code_cli_no_redirects : ltac:(let t := type of @C16_cli.cli_no_redirects in exact t).
+Proof. exact (@C16_cli.cli_no_redirects). Qed.
+Print Assumptions C16_code_cli_no_redirects.
+Theorem C16_code_cli_terminates : ltac:(let t := type of @C16_cli.cli_terminates in exact t).
+Proof. exact (@C16_cli.cli_terminates). Qed.
+Print Assumptions C16_code_cli_terminates.
+Theorem C16_code_cli_scheme : ltac:(let t := type of @C16_cli.cli_scheme in exact t).
+Proof. exact (@C16_cli.cli_scheme). Qed.
+Print Assumptions C16_code_cli_scheme.
+Theorem C16_code_cli_loop_free : ltac:(let t := type of @C16_cli.cli_loop_free in exact t).
+Proof. exact (@C16_cli.cli_loop_free). Qed.
+Print Assumptions C16_code_cli_loop_free.
+(* following enabled: a followable redirect is never the command's final response, for EVERY --max-redirects (0 included) *)
+Theorem C16_code_cli_no_redirect_as_content : ltac:(let t := type of @C16_cli.cli_no_redirect_as_content in exact t).
+Proof. exact (@C16_cli.cli_no_redirect_as_content). Qed.
+Print Assumptions C16_code_cli_no_redirect_as_content.
+Theorem C16_code_cli_follows : ltac:(let t := type of @C16_cli.cli_follows in exact t).
+Proof. exact (@C16_cli.cli_follows). Qed.
+Print Assumptions C16_code_cli_follows.
+Theorem C16_code_cli_ok : ltac:(let t := type of @C16_cli.cli_ok in exact t).
+Proof. exact (@C16_cli.cli_ok). Qed.
+Print Assumptions C16_code_cli_ok.
+(* exit status 0 iff the fetch ended in a response with status < 40 - which, with following enabled, is not a followable redirect *)
+Theorem C16_code_cli_exit_zero : ltac:(let t := type of @C16_cli.cli_exit_zero in exact t).
+Proof. exact (@C16_cli.cli_exit_zero). Qed.
+Print Assumptions C16_code_cli_exit_zero.
+Theorem C16_code_cli_exit_zero_final : ltac:(let t := type of @C16_cli.cli_exit_zero_final in exact t).
+Proof. exact (@C16_cli.cli_exit_zero_final). Qed.
+Print Assumptions C16_code_cli_exit_zero_final.
+Theorem C16_code_cli_command : ltac:(let t := type of @C16_cli.cli_command in exact t).
+Proof. exact (@C16_cli.cli_command). Qed.
+Print Assumptions C16_code_cli_command.
+(* non-vacuity: -r 0 against a one-hop chain is one connection and an error, not the 31 as content *)
+Theorem C16_code_cli_r0_one_hop : ltac:(let t := type of @C16_cli.ex_cli_r0_one_hop in exact t).
+Proof. exact (@C16_cli.ex_cli_r0_one_hop). Qed.
+Print Assumptions C16_code_cli_r0_one_hop.
